@@ -1,12 +1,16 @@
 // @unit c16_head property=C16 attach=typify-impl/src/lib.rs
-// @h c16_head_known_key tier=off bounded=batch-of-1-definition,1-known-reference-key,literal-next_id
-// @h c16_head_fresh_key tier=off bounded=batch-of-1-definition,literal-next_id
-// @h c16_head_empty_batch tier=off bounded=literal-next_id
-// @canary canary_c16_head
+// @h c16_head_known_key tier=native bounded=batch-of-1-definition,1-known-reference-key,literal-next_id
+// @h c16_head_fresh_key tier=native bounded=batch-of-1-definition,literal-next_id
+// @h c16_head_empty_batch tier=native bounded=literal-next_id
+// @h c16_head_empty_batch_known_key tier=native bounded=literal-next_id
+// @native-canary canary_c16_head
 //
 // C16 -- identifier pre-assignment for a batch of references (the first statements of
 // `add_ref_types_impl`, extracted mechanically by lib/c16_prepare.py; Verus rejects the
-// slice's `iter().enumerate()`, so this is a BOUNDED Kani check: batches of 0 and 1).
+// slice's `iter().enumerate()`, and CBMC does not finish the B-tree insert + get on RefKey keys
+// within 15 minutes even for a batch of one: the four literal histories below are executed
+// NATIVELY against the extracted text instead -- `tier=native`, a bounded stand-in, batches of 0
+// and 1, never counted as proved).
 //
 //   H1  next_id advances by exactly the batch size
 //   H2  every definition of the batch is mapped, in ref_to_id, to its OWN fresh identifier
@@ -78,7 +82,13 @@ stubs! {
 
 stubs! {
     fn c16_head_empty_batch() {
-        check(kani::any(), false)
+        check(false, false)
+    }
+}
+
+stubs! {
+    fn c16_head_empty_batch_known_key() {
+        check(true, false)
     }
 }
 
